@@ -64,9 +64,27 @@ type ctxKey struct{}
 
 // rq is one request in flight: its case and its events.
 type rq struct {
-	mu sync.Mutex
-	c  drv.Step
-	ev []drv.Step
+	mu      sync.Mutex
+	c       drv.Step
+	ev      []drv.Step
+	entered chan struct{} // closed when a blocking Handler call has begun
+	done    chan struct{} // closed when it has seen its context end (or has given up waiting)
+}
+
+// block is a Handler call that does not return before its context ends; it logs how the context ended.
+func (r *rq) block(ctx context.Context) {
+	close(r.entered)
+	res := "none"
+	select {
+	case <-ctx.Done():
+		res = "canceled"
+		if errors.Is(ctx.Err(), context.DeadlineExceeded) {
+			res = "deadline"
+		}
+	case <-time.After(40 * time.Second):
+	}
+	r.emit(drv.Step{"ev": "CtxEnd", "ctxerr": res})
+	close(r.done)
 }
 
 func (r *rq) emit(e drv.Step) {
@@ -339,6 +357,10 @@ func called(ctx context.Context, m string, args map[string]string, objs []string
 	r.emit(drv.Step{"ev": "H", "m": m, "args": args, "objs": objs, "ret": ret})
 	if a.kind == "panic" {
 		panic("scripted panic in Handler." + m)
+	}
+	if a.kind == "cancel" || a.kind == "timeout" {
+		r.block(ctx)
+		a.kind = "err"
 	}
 	return a, r
 }
@@ -798,11 +820,14 @@ func (s *stub) Proxy(ctx context.Context, req *http.Request) (*http.Response, er
 	}
 	hdr := fmt.Sprintf("up-%d", testutil.RandomVIdx()%100000)
 	kind := "ok"
-	if drv.Str(a["kind"]) == "err" {
-		kind = "err"
+	if k := drv.Str(a["kind"]); k == "err" || k == "cancel" || k == "timeout" {
+		kind = k
 	}
 	r.emit(drv.Step{"ev": "PX", "seen": seenOf(req, body), "ret": drv.Step{"kind": kind, "status": status, "hdr": hdr, "body": digBytes([]byte(payload))}})
-	if kind == "err" {
+	if kind == "cancel" || kind == "timeout" {
+		r.block(ctx)
+	}
+	if kind != "ok" {
 		return nil, errScripted
 	}
 	return &http.Response{StatusCode: status, Header: http.Header{"X-Up": []string{hdr}, "Content-Type": []string{"text/x-up"}},
@@ -935,11 +960,11 @@ func decodeData(ep string, raw json.RawMessage, meta map[string]string) []string
 	return []string{"unexpected data"}
 }
 
-var client = &http.Client{Timeout: 20 * time.Second, CheckRedirect: func(*http.Request, []*http.Request) error { return http.ErrUseLastResponse },
+var client = &http.Client{Timeout: 30 * time.Second, CheckRedirect: func(*http.Request, []*http.Request) error { return http.ErrUseLastResponse },
 	Transport: &http.Transport{MaxIdleConnsPerHost: 64}}
 
 // fresh connections only: the transport re-sends an idempotent request when a REUSED connection breaks (panic cases)
-var clientFresh = &http.Client{Timeout: 20 * time.Second, CheckRedirect: func(*http.Request, []*http.Request) error { return http.ErrUseLastResponse },
+var clientFresh = &http.Client{Timeout: 30 * time.Second, CheckRedirect: func(*http.Request, []*http.Request) error { return http.ErrUseLastResponse },
 	Transport: &http.Transport{DisableKeepAlives: true}}
 
 func respEvent(ep string, res *http.Response, err error) drv.Step {
@@ -1078,7 +1103,7 @@ func TestExec(t *testing.T) {
 				defer evMu.RUnlock()
 			}
 			id := fmt.Sprintf("rq-%d", sid)
-			r := &rq{c: c}
+			r := &rq{c: c, entered: make(chan struct{}), done: make(chan struct{})}
 			body, sent := buildBody(t, c)
 			extra := map[string]string{}
 			if drv.Str(sub(c, "ans")["kind"]) == "hop" {
@@ -1101,10 +1126,30 @@ func TestExec(t *testing.T) {
 			r.emit(reset)
 			inflight.Store(id, r)
 			cl := client
-			if drv.Str(sub(c, "ans")["kind"]) == "panic" {
+			akind := drv.Str(sub(c, "ans")["kind"])
+			if akind == "panic" || akind == "cancel" || akind == "timeout" {
 				cl = clientFresh
 			}
-			res, err := cl.Do(req)
+			cctx, cancel := context.WithCancel(context.Background())
+			defer cancel()
+			if akind == "cancel" { // the client goes away once the Handler call has begun
+				go func() {
+					select {
+					case <-r.entered:
+						cancel()
+					case <-cctx.Done():
+					}
+				}()
+			}
+			res, err := cl.Do(req.WithContext(cctx))
+			select { // a blocking call logs how its context ended before the response is logged
+			case <-r.entered:
+				select {
+				case <-r.done:
+				case <-time.After(60 * time.Second):
+				}
+			default:
+			}
 			resp := respEvent(ep, res, err)
 			if err != nil && strings.Contains(err.Error(), "Client.Timeout") {
 				r.emit(drv.Step{"ev": "Hang"})
